@@ -253,8 +253,9 @@ def run(ctx):
                di.loc())
 
     # ---- R13.4 dataset wiring
+    from .fc import returned_name, local_assignments, normalise_mapping_loops
     fa = p.get_function(DSM + "interpolate_dataset_along_axis")
-    from .fc import returned_name, local_assignments
+    fa = normalise_mapping_loops(fa, fa.params[1])      # `for k, v in ds.data_vars.items()` is `for k in ds: v = ds[k]`
     P_CV, P_DS, P_CN, P_PD, P_PC, P_NN = (fa.params + [None] * 6)[:6]     # parameters by position (renaming them is an API change)
     R = returned_name(fa.node)
     loop = [n for n in own_walk(fa.node) if isinstance(n, ast.For) and ast.unparse(n.iter) == P_DS and isinstance(n.target, ast.Name)]
